@@ -119,6 +119,22 @@ func inlinablePkg(fn *ssa.Function) bool {
 
 // autoInline: small leaf functions of the package without loops.
 func (x *Exec) autoInline(fn *ssa.Function) bool {
+	return x.autoInlineD(fn, 0)
+}
+
+func (x *Exec) autoInlineD(fn *ssa.Function, depth int) bool {
+	if depth > 3 {
+		return false
+	}
+	if v, ok := x.inlineMemo[fn]; ok {
+		return v
+	}
+	r := x.autoInline1(fn, depth)
+	x.inlineMemo[fn] = r
+	return r
+}
+
+func (x *Exec) autoInline1(fn *ssa.Function, depth int) bool {
 	if len(fn.Blocks) == 0 || len(fn.Blocks) > 48 {
 		return false
 	}
@@ -141,8 +157,10 @@ func (x *Exec) autoInline(fn *ssa.Function) bool {
 				if callee := cc.StaticCallee(); callee != nil {
 					if (x.prog.inMain(callee) || inlinablePkg(callee)) && x.prog.Cons.ByKey[funcKey(callee)] == nil {
 						if _, isModel := models[funcKey(callee)]; !isModel {
-							// only inline leaves
-							return false
+							// callee chains are inlined only when every link is itself inlinable
+							if callee == fn || !x.autoInlineD(callee, depth+1) {
+								return false
+							}
 						}
 					}
 				}
